@@ -20,13 +20,17 @@ func init() {
 	})
 }
 
-func c19(c *Ctx) {
-	cache := c.Field("R1", "LogCache", "cache")
+func c19(c *Ctx) { c19p(c, "") }
+
+// c19p runs the LogCache rules under a rule-name prefix (shared into C04:
+// the follower's previous-entry check and conflict scan read through the cache).
+func c19p(c *Ctx, pfx string) {
+	cache := c.Field(pfx+"R1", "LogCache", "cache")
 	if cache == nil {
 		return
 	}
 	// R1
-	c.WhoMay("R1", "write LogCache.cache", c.P.FieldWrites(cache), map[string]string{
+	c.WhoMay(pfx+"R1", "write LogCache.cache", c.P.FieldWrites(cache), map[string]string{
 		"NewLogCache":             "allocation",
 		"(*LogCache).DeleteRange": "wholesale reset",
 	})
@@ -46,12 +50,12 @@ func c19(c *Ctx) {
 			}
 		})
 	}
-	c.WhoMay("R1", "store into a slot of LogCache.cache", elemStores, map[string]string{"(*LogCache).StoreLogs": "fill after a successful backend write"})
+	c.WhoMay(pfx+"R1", "store into a slot of LogCache.cache", elemStores, map[string]string{"(*LogCache).StoreLogs": "fill after a successful backend write"})
 	esc := c.P.AddrEscapes(cache)
-	c.Check("R1", "LogCache.cache:no-alias", "-", "the cache slice's address does not escape", len(esc) == 0, fmt.Sprintf("%d escaping uses", len(esc)), 1)
+	c.Check(pfx+"R1", "LogCache.cache:no-alias", "-", "the cache slice's address does not escape", len(esc) == 0, fmt.Sprintf("%d escaping uses", len(esc)), 1)
 
 	// R2
-	if fn := c.Fn("R2", "(*LogCache).StoreLogs"); fn != nil {
+	if fn := c.Fn(pfx+"R2", "(*LogCache).StoreLogs"); fn != nil {
 		r := c.Run(&engine.Automaton{Fn: fn, Tracks: []engine.Track{
 			engine.Event("backend", func(in ssa.Instruction) bool {
 				cc := engine.CallCommonOf(in)
@@ -67,11 +71,11 @@ func c19(c *Ctx) {
 			st := s.Instr.(*ssa.Store)
 			ad, vd := c.P.D(st.Addr), c.P.D(st.Val)
 			slotOK := ad == "recv.cache[(val(range p1).Index % len(recv.cache))]" && vd == "val(range p1)"
-			c.RequireAt(r, "R2", "StoreLogs:fill-after-backend-success", s.Instr, "the backend accepted exactly this batch (StoreLogs(logs) == nil) before any slot is filled; slot l.Index % len(cache) receives that l; under the write lock", func(v engine.View) bool {
+			c.RequireAt(r, pfx+"R2", "StoreLogs:fill-after-backend-success", s.Instr, "the backend accepted exactly this batch (StoreLogs(logs) == nil) before any slot is filled; slot l.Index % len(cache) receives that l; under the write lock", func(v engine.View) bool {
 				return slotOK && v.Seen("backend") && v.F("backendErr") && v.Seen("locked")
 			})
 		}
-		rangeBodyAlways(c, "R2", fn, "StoreLogs:every-log-cached", "p1", func(in ssa.Instruction) bool {
+		rangeBodyAlways(c, pfx+"R2", fn, "StoreLogs:every-log-cached", "p1", func(in ssa.Instruction) bool {
 			for _, s := range elemStores {
 				if s.Instr == in {
 					return true
@@ -81,7 +85,7 @@ func c19(c *Ctx) {
 		}, "every log of the accepted batch overwrites its slot (a stale entry of the same slot never survives a rewrite of that index)")
 		for _, ret := range engine.RawReturnsOf(fn) {
 			d := c.P.D(engine.ReturnValues(ret)[0])
-			c.RequireAt(r, "R2", "StoreLogs:return "+pick(d == "nil", "nil", "error"), ret, "nil iff the backend returned nil", func(v engine.View) bool {
+			c.RequireAt(r, pfx+"R2", "StoreLogs:return "+pick(d == "nil", "nil", "error"), ret, "nil iff the backend returned nil", func(v engine.View) bool {
 				if d == "nil" {
 					return v.Seen("backend") && v.F("backendErr")
 				}
@@ -89,7 +93,7 @@ func c19(c *Ctx) {
 			})
 		}
 	}
-	if fn := c.Fn("R2", "(*LogCache).StoreLog"); fn != nil {
+	if fn := c.Fn(pfx+"R2", "(*LogCache).StoreLog"); fn != nil {
 		ok := false
 		for _, s := range c.P.CallsIn(fn, engine.Is("(*LogCache).StoreLogs")) {
 			ok = strings.HasPrefix(c.P.Arg(s.Instr, 0), "new([1]*Log)")
@@ -101,11 +105,11 @@ func c19(c *Ctx) {
 		}
 		rets := engine.RawReturnsOf(fn)
 		ok = ok && len(rets) == 1 && strings.HasPrefix(c.P.D(engine.ReturnValues(rets[0])[0]), "recv.StoreLogs(")
-		c.Check("R2", "StoreLog:delegates", c.P.Pos(fn.Pos()), "StoreLog(l) = StoreLogs([]*Log{l})", ok, pick(ok, "delegates", "does something else"), 1)
+		c.Check(pfx+"R2", "StoreLog:delegates", c.P.Pos(fn.Pos()), "StoreLog(l) = StoreLogs([]*Log{l})", ok, pick(ok, "delegates", "does something else"), 1)
 	}
 
 	// R3
-	if fn := c.Fn("R3", "(*LogCache).DeleteRange"); fn != nil {
+	if fn := c.Fn(pfx+"R3", "(*LogCache).DeleteRange"); fn != nil {
 		r := c.Run(&engine.Automaton{Fn: fn, Tracks: []engine.Track{
 			engine.Event("reset", func(in ssa.Instruction) bool {
 				v, ok := c.P.StoredValue(in, cache)
@@ -115,17 +119,17 @@ func c19(c *Ctx) {
 		}})
 		for i, ret := range engine.RawReturnsOf(fn) {
 			d := c.P.D(engine.ReturnValues(ret)[0])
-			c.RequireAt(r, "R3", fmt.Sprintf("DeleteRange:return#%d", i+1), ret, "the whole cache was replaced by a fresh slice of the same length before returning, and the backend's answer is returned unchanged", func(v engine.View) bool {
+			c.RequireAt(r, pfx+"R3", fmt.Sprintf("DeleteRange:return#%d", i+1), ret, "the whole cache was replaced by a fresh slice of the same length before returning, and the backend's answer is returned unchanged", func(v engine.View) bool {
 				return v.Seen("reset") && v.Seen("backend") && d == "recv.store.DeleteRange(p1, p2)"
 			})
 		}
 		for _, s := range c.P.CallsIn(fn, engine.Is("iface:LogStore.DeleteRange")) {
-			c.RequireAt(r, "R3", "DeleteRange:reset-before-backend", s.Instr, "the cache is dropped before the backend delete (a concurrent reader can never see a deleted entry from the cache)", func(v engine.View) bool { return v.Seen("reset") })
+			c.RequireAt(r, pfx+"R3", "DeleteRange:reset-before-backend", s.Instr, "the cache is dropped before the backend delete (a concurrent reader can never see a deleted entry from the cache)", func(v engine.View) bool { return v.Seen("reset") })
 		}
 	}
 
 	// R4
-	if fn := c.Fn("R4", "(*LogCache).GetLog"); fn != nil {
+	if fn := c.Fn(pfx+"R4", "(*LogCache).GetLog"); fn != nil {
 		slot := "recv.cache[(p1 % len(recv.cache))]"
 		r := c.Run(&engine.Automaton{Fn: fn, Tracks: []engine.Track{
 			engine.PredRel("present", slot, "nil", engine.LT|engine.GT),
@@ -143,17 +147,17 @@ func c19(c *Ctx) {
 		engine.EachInstr(fn, func(in ssa.Instruction) {
 			if st, ok := in.(*ssa.Store); ok && c.P.D(st.Addr) == "p2" {
 				n++
-				c.RequireAt(r, "R4", "GetLog:hit-only-for-the-requested-index", in, "*log is overwritten from the cache only when the slot idx % len(cache) is non-nil and its Index equals idx", func(v engine.View) bool {
+				c.RequireAt(r, pfx+"R4", "GetLog:hit-only-for-the-requested-index", in, "*log is overwritten from the cache only when the slot idx % len(cache) is non-nil and its Index equals idx", func(v engine.View) bool {
 					return c.P.D(st.Val) == slot && v.T("present") && v.T("same")
 				})
 			}
 		})
 		if n == 0 {
-			c.Bad("R4", "GetLog:hit-path", c.P.Pos(fn.Pos()), "a cache-hit path copying the cached entry", "none")
+			c.Bad(pfx+"R4", "GetLog:hit-path", c.P.Pos(fn.Pos()), "a cache-hit path copying the cached entry", "none")
 		}
 		for i, ret := range engine.RawReturnsOf(fn) {
 			d := c.P.D(engine.ReturnValues(ret)[0])
-			c.RequireAt(r, "R4", fmt.Sprintf("GetLog:return#%d", i+1), ret, "either a verified hit (copied, nil) or exactly the backend's GetLog(idx, log) result", func(v engine.View) bool {
+			c.RequireAt(r, pfx+"R4", fmt.Sprintf("GetLog:return#%d", i+1), ret, "either a verified hit (copied, nil) or exactly the backend's GetLog(idx, log) result", func(v engine.View) bool {
 				if d == "nil" {
 					return v.Seen("copied") && v.T("present") && v.T("same") && !v.Seen("backend")
 				}
@@ -164,35 +168,35 @@ func c19(c *Ctx) {
 
 	// R5
 	for _, m := range []string{"FirstIndex", "LastIndex"} {
-		if fn := c.Fn("R5", "(*LogCache)."+m); fn != nil {
+		if fn := c.Fn(pfx+"R5", "(*LogCache)."+m); fn != nil {
 			for _, ret := range engine.RawReturnsOf(fn) {
 				vals := engine.ReturnValues(ret)
 				ok := len(vals) == 2 && c.P.D(vals[0]) == "recv.store."+m+"()#0" && c.P.D(vals[1]) == "recv.store."+m+"()#1"
-				c.Check("R5", m+":pass-through", c.P.InstrPos(ret), m+"() returns the backend's result unmodified", ok, "returns "+c.P.D(vals[0])+", "+c.P.D(vals[len(vals)-1]), 1)
+				c.Check(pfx+"R5", m+":pass-through", c.P.InstrPos(ret), m+"() returns the backend's result unmodified", ok, "returns "+c.P.D(vals[0])+", "+c.P.D(vals[len(vals)-1]), 1)
 			}
 		}
 	}
-	if fn := c.Fn("R5", "(*LogCache).IsMonotonic"); fn != nil {
+	if fn := c.Fn(pfx+"R5", "(*LogCache).IsMonotonic"); fn != nil {
 		for _, ret := range engine.RawReturnsOf(fn) {
 			d := c.P.D(engine.ReturnValues(ret)[0])
 			ok := d == "false" || d == "recv.store.(MonotonicLogStore)#0.IsMonotonic()"
-			c.Check("R5", "IsMonotonic:pass-through", c.P.InstrPos(ret), "the backend's IsMonotonic() or false when it has none", ok, "returns "+d, 1)
+			c.Check(pfx+"R5", "IsMonotonic:pass-through", c.P.InstrPos(ret), "the backend's IsMonotonic() or false when it has none", ok, "returns "+d, 1)
 		}
 	}
-	if fn := c.Fn("R5", "NewLogCache"); fn != nil {
+	if fn := c.Fn(pfx+"R5", "NewLogCache"); fn != nil {
 		r := c.Run(&engine.Automaton{Fn: fn, Tracks: []engine.Track{engine.PredRel("bad", "p1", "0", engine.LT|engine.EQ)}})
 		for _, s := range c.P.FieldWritesIn(fn, cache) {
 			v, _ := c.P.StoredValue(s.Instr, cache)
-			c.RequireAt(r, "R5", "NewLogCache:positive-capacity", s.Instr, "capacity > 0 (slot expression idx % len(cache) never divides by zero) and the slice has that length", func(vw engine.View) bool {
+			c.RequireAt(r, pfx+"R5", "NewLogCache:positive-capacity", s.Instr, "capacity > 0 (slot expression idx % len(cache) never divides by zero) and the slice has that length", func(vw engine.View) bool {
 				return vw.F("bad") && c.P.D(v) == "make([]*Log, p1)"
 			})
 		}
 		if st := c.P.LookupField("LogCache", "store"); st != nil {
 			for _, s := range c.P.FieldWritesIn(fn, st) {
 				v, _ := c.P.StoredValue(s.Instr, st)
-				c.Check("R5", "NewLogCache:wraps-given-store", c.P.InstrPos(s.Instr), "the wrapped store is the constructor's argument", c.P.D(v) == "p2", "= "+c.P.D(v), 1)
+				c.Check(pfx+"R5", "NewLogCache:wraps-given-store", c.P.InstrPos(s.Instr), "the wrapped store is the constructor's argument", c.P.D(v) == "p2", "= "+c.P.D(v), 1)
 			}
-			c.WhoMay("R5", "write LogCache.store", c.P.FieldWrites(st), map[string]string{"NewLogCache": "set once"})
+			c.WhoMay(pfx+"R5", "write LogCache.store", c.P.FieldWrites(st), map[string]string{"NewLogCache": "set once"})
 		}
 	}
 }
